@@ -361,3 +361,99 @@ pub fn native_get_moves_matches_spec() {
     }
     eprintln!("native differential: {} positions compared", nodes);
 }
+
+// =================================================================================================
+// the two loops of get_moves as whole blocks (slices verif_gen_block / verif_filter_block)
+// =================================================================================================
+#[cfg(kani)]
+pub mod genblk {
+    use super::*;
+    pub static mut MASK: u64 = 0;
+    pub static mut DUP: bool = false;
+    pub static mut ARGS_OK: bool = true;
+    pub fn get_moves_recorder(pc: Piece, _push: impl FnMut(Move), g: &Game, pos: Position) {
+        unsafe {
+            let s = adapt::sq(pos);
+            if MASK & (1u64 << s) != 0 { DUP = true; }
+            MASK |= 1u64 << s;
+            if g.board[s] != Some(pc) { ARGS_OK = false; }
+        }
+    }
+}
+/// The generation loop (both `for` headers included) calls Piece::get_moves exactly once for every
+/// square holding a piece of the side to move -- with that piece, that square, this game -- and for
+/// no other square.  Complete: 8 x 8 iterations, symbolic board.
+#[cfg(kani)]
+pub fn gen_block_contract() {
+    let mut g = mk::sym_game_nocache(0);
+    let w = adapt::is_white(g.current_player);
+    let b = adapt::board_of(&g);
+    unsafe { genblk::MASK = 0; genblk::DUP = false; genblk::ARGS_OK = true; }
+    g.verif_gen_block(|_m| {});
+    let mut want: u64 = 0;
+    let mut r = 0;
+    while r < 8 {
+        let mut f = 0;
+        while f < 8 { if spec::owned_by(b[r * 8 + f], w) { want |= 1u64 << (r * 8 + f); } f += 1; }
+        r += 1;
+    }
+    let (mask, dup, args_ok) = unsafe { (genblk::MASK, genblk::DUP, genblk::ARGS_OK) };
+    assert!(mask == want, "C01: the generation loop skips a square holding an own piece, or generates for a square that holds none");
+    assert!(!dup, "C01: the generation loop visits a square twice");
+    assert!(args_ok, "C01: the generation loop passes the wrong piece to the piece generator");
+    vcover!(want.count_ones() >= 2, "several own pieces reachable");
+}
+
+#[cfg(kani)]
+pub mod fblk {
+    use super::*;
+    pub static mut ANS: [bool; 4] = [false; 4];
+    pub static mut ASKED: usize = 0;
+    pub static mut BALANCE: i8 = 0;
+    pub static mut BAD: bool = false;
+    pub fn push(_g: &mut Game, _m: Move) { unsafe { BALANCE += 1; if BALANCE != 1 { BAD = true; } } }
+    pub fn pop(_g: &mut Game, _m: Move) { unsafe { BALANCE -= 1; if BALANCE != 0 { BAD = true; } } }
+    pub fn is_targeted(_g: &Game, _p: Position, _pl: Player) -> bool { unsafe { let a = if ASKED < 4 { ANS[ASKED] } else { BAD = true; false }; ASKED += 1; a } }
+}
+/// The whole legality-filter block (prologue, loop header, body, keep_index compaction, truncate) on a
+/// list of THREE arbitrary candidate moves, against abstract push / is_targeted / pop with arbitrary
+/// answers: the resulting list is exactly the sub-multiset of candidates that the body contract keeps
+/// (shortcut, or `not attacked` answered), pushes and pops alternate, and with verify_king == false the
+/// list is untouched.  BOUNDED in the list length (3); the per-step contract (filter_body) is unbounded.
+#[cfg(kani)]
+pub fn filter_block_contract() {
+    let mut g = mk::sym_game_nocache(0);
+    let verify_king = nd::bool();
+    let ms = [sym_move(nd::u8_in(0, 4)), sym_move(nd::u8_in(0, 4)), sym_move(nd::u8_in(0, 4))];
+    let mut moves: ArrayVec<Move, 256> = ArrayVec::new();
+    moves.push(ms[0]); moves.push(ms[1]); moves.push(ms[2]);
+    let ans = [nd::bool(), nd::bool(), nd::bool(), nd::bool()];
+    unsafe { fblk::ANS = ans; fblk::ASKED = 0; fblk::BALANCE = 0; fblk::BAD = false; }
+    let player = g.current_player;
+    let kp = g.king_positions[if adapt::is_white(player) { 0 } else { 1 }];
+    g.verif_filter_block(&mut moves, verify_king);
+    // what the step contract prescribes, replayed on the abstract answers
+    let mut keep = [true; 3];
+    if verify_king {
+        let in_check = ans[0];
+        let mut asked = 1;
+        let mut i = 0;
+        while i < 3 {
+            let shortcut = !in_check && match ms[i] {
+                Move::Normal { start, .. } => { let (dc, dr) = (start.col() - kp.col(), start.row() - kp.row()); dc != 0 && dr != 0 && dc.abs() != dr.abs() }
+                _ => false,
+            };
+            if !shortcut { keep[i] = !ans[asked]; asked += 1; }
+            i += 1;
+        }
+    }
+    let count_in = |m: Move, only_kept: bool| { let mut n = 0; let mut i = 0; while i < 3 { if ms[i] == m && (!only_kept || keep[i]) { n += 1; } i += 1; } n };
+    let count_out = |m: Move| { let mut n = 0; let mut i = 0; while i < 3 { if i < moves.len() && moves[i] == m { n += 1; } i += 1; } n };
+    let want_len = keep[0] as usize + keep[1] as usize + keep[2] as usize;
+    assert!(moves.len() == want_len, "C01: the filter keeps a different number of moves than its step contract prescribes");
+    assert!(count_out(ms[0]) == count_in(ms[0], true) && count_out(ms[1]) == count_in(ms[1], true) && count_out(ms[2]) == count_in(ms[2], true),
+            "C01: the filtered list is not the sub-multiset of kept candidates (a move lost, duplicated or replaced during compaction)");
+    assert!(unsafe { !fblk::BAD && fblk::BALANCE == 0 }, "C03: pushes and pops of the filter are not strictly paired");
+    vcover!(verify_king && want_len == 2, "dropping the middle move reachable");
+    vcover!(!verify_king, "unchecked mode reachable");
+}
